@@ -34,6 +34,9 @@ type Case struct {
 	Split   int    // bit i set: honest party i listens to twin B
 	Seed    uint64
 	Sched   []int
+	// Resend: the round-Round broadcast of twin B is ALSO delivered to the audience of twin A (a second, different
+	// version from the same sender; whichever version a party is handed first is the one it acts on)
+	Resend bool `json:",omitempty"`
 }
 
 func build(c Case) (*proto.Session, *proto.Material, error) {
@@ -178,6 +181,43 @@ func Run(c Case) (*Result, *pbt.Fail) {
 			return nil, FailOf(err)
 		}
 	}
+	if c.Resend {
+		// The cheater also controls the echo hash it attaches: towards audience A it keeps sending content that fits
+		// version A but, from the next round on, with the hash of the view that contains version B (which is what an
+		// honest party that was handed B holds). Twin A's next-round messages are held back until twin B has produced its
+		// own, whose hash they then carry.
+		prev := n.OnEmit
+		var hashB []byte
+		var held []*sim.Msg
+		n.OnEmit = func(from *sim.Party, m *sim.Msg) []*sim.Msg {
+			if prev != nil {
+				if r := prev(from, m); r != nil {
+					return r
+				}
+			}
+			switch {
+			case from.Name == nameB && int(m.RoundNumber) == c.Round && m.Broadcast:
+				for name := range groupA {
+					n.Inject(nameB, sim.Clone(m), name, false)
+				}
+			case from.Name == nameB && int(m.RoundNumber) == c.Round+1 && hashB == nil && m.BroadcastVerification != nil:
+				hashB = append([]byte{}, m.BroadcastVerification...)
+				for _, h := range held {
+					h.BroadcastVerification = hashB
+					n.Post(n.Party(nameA), h)
+				}
+				held = nil
+			case from.Name == nameA && int(m.RoundNumber) == c.Round+1:
+				if hashB == nil {
+					held = append(held, m)
+					return []*sim.Msg{}
+				}
+				m.BroadcastVerification = hashB
+				return []*sim.Msg{m}
+			}
+			return nil
+		}
+	}
 	n.Start()
 	if err := n.Run(sim.FromList(c.Sched), 200000); err != nil {
 		return nil, FailOf(err)
@@ -279,6 +319,7 @@ func Gen(t *rapid.T, protos []string, maxHonest int) Case {
 		c.Round = 2 + c.Round%5
 	}
 	c.Split = rapid.IntRange(1, 1<<uint(c.Honest)-2).Draw(t, "split")
+	c.Resend = rapid.IntRange(0, 3).Draw(t, "resend") == 0
 	c.Seed = rapid.Uint64Range(1, 3).Draw(t, "seed")
 	c.Sched = rapid.SliceOfN(rapid.IntRange(0, 4095), 0, 60).Draw(t, "sched")
 	return c
